@@ -788,10 +788,16 @@ class BaseLoss(object):
 
         H = np.zeros((nP, nP))
 
+        # The curvature term of the Hessian is the derivative of the cost with
+        # respect to each prediction, i.e. the derivative of the loss times the
+        # weight of the observation (the gradient applies the same weight to
+        # the sensitivities), times the second order sensitivities.
+        weight = np.reshape(self._weight, (num_time - 1, len(self._stateName)))
+
         for i in range(num_time - 1):
             FF = ode_utils.vecToMatFF(solution_all[i,base_index_hess::], nS, nP)
             E = np.zeros(nS)
-            E[self._stateIndex] += -diff_loss[i]
+            E[self._stateIndex] += diff_loss[i]*weight[i]
             H += scipy.sparse.kron(E, scipy.sparse.eye(nP)).dot(FF)
 
         # just the J^{\top}J part of the Hessian (which is guarantee to be PSD)
